@@ -466,7 +466,7 @@ def run(chk):
     r57 = chk.rule("R5.7", "all evaluation routes reach Boxed_Number::oper with the decoded opcode; arithmetic_error is preserved by Binary/Fold_Right and reported as eval_error by Equation only",
                    "the four evaluation routes agree and a trap surfaces as the documented exception type")
     routes(prog, chk, r57)
-    r57.require(6, "routes")
+    r57.require(8, "routes")
 
 
 # =============================================================================== helpers
@@ -836,6 +836,24 @@ def routes(prog, chk, r):
                 # the opcode and the constant right operand were validated where the node is created (checked below)
                 ok2 = sum("is_arithmetic" in x and "[false]" not in x for x in facts) >= 1
             r.ob("%s::%s/kernel only for decoded opcode and arithmetic operands" % (cls_prefix.rstrip("<"), f["name"]), ok2, "%s:%d" % (f["file"], c["l"]), f.q, "guards seen: %s" % facts)
+            # inside the arithmetic fast path (the arm guarded by the operands' is_arithmetic() test) nothing but the kernel's result is returned
+            region = None
+            for a in flow.ancestors(c):
+                if a.get("k") == "if" and "is_arithmetic" in expr_str(prog, f, a.get("cond") or {}) and any(x is c for x in walk(a.get("then") or {})):
+                    region = a["then"]
+                    break
+            others = []
+            for x in walk(region or {}):
+                if x.get("k") == "return" and x.get("e") is not None:
+                    e = strip_casts(x["e"])
+                    while e.get("k") == "construct" and len(e.get("args", [])) == 1:
+                        e = strip_casts(e["args"][0])
+                    if e is not c:
+                        others.append(x)
+            r.ob("%s::%s/the arithmetic fast path returns only the kernel's result" % (cls_prefix.rstrip("<"), f["name"]), region is not None and not others,
+                 "%s:%d" % (f["file"], (others[0] if others else c)["l"]), f.q,
+                 "returns %s without going through Boxed_Number::do_oper: this route yields another type/value than the other routes for the same operands "
+                 "(e.g. the left operand's own type instead of the promoted one)" % [expr_str(prog, f, x["e"])[:50] for x in others])
     fold_right_creation(prog, chk, r)
     # constructors decode with to_operator(text)
     for cls_prefix, unary in (("chaiscript::eval::Binary_Operator_AST_Node<", False), ("chaiscript::eval::Prefix_AST_Node<", True),
